@@ -16,11 +16,23 @@ use std::io;
 pub enum POut {
     Data(usize),
     Zero,
-    Err,
+    Err(io::ErrorKind),
     Eof,
     /// from now on every call fails this way
-    StuckErr,
+    StuckErr(io::ErrorKind),
     StuckZero,
+}
+
+pub fn err_kind(name: &str) -> io::ErrorKind {
+    match name {
+        "Interrupted" => io::ErrorKind::Interrupted,
+        "WouldBlock" => io::ErrorKind::WouldBlock,
+        "ConnectionReset" => io::ErrorKind::ConnectionReset,
+        "TimedOut" => io::ErrorKind::TimedOut,
+        "BrokenPipe" => io::ErrorKind::BrokenPipe,
+        "UnexpectedEof" => io::ErrorKind::UnexpectedEof,
+        _ => io::ErrorKind::Other,
+    }
 }
 
 pub const EXHAUSTED: &str = "verif: script exhausted";
@@ -72,10 +84,11 @@ impl io::Read for ScriptSource {
                 self.log.push(json!({"t": "pipe", "e": {"ev": "read", "offered": buf.len(), "n": 0, "pos": self.rd, "data": []}}));
                 Ok(0)
             }
-            Some(_) => {
+            Some(POut::Err(k)) | Some(POut::StuckErr(k)) => {
                 self.log.push(json!({"t": "pipe", "e": {"ev": "readerr", "offered": buf.len(), "pos": self.rd}}));
-                Err(io::Error::new(io::ErrorKind::ConnectionReset, "verif: injected read error"))
+                Err(io::Error::new(k, "verif: injected read error"))
             }
+            Some(POut::StuckZero) => Ok(0),
             None => {
                 self.exhausted = true;
                 Err(io::Error::new(io::ErrorKind::Other, EXHAUSTED))
@@ -125,10 +138,10 @@ impl io::Write for ScriptSink {
                 Ok(k)
             }
             Some(POut::Zero) | Some(POut::Eof) => Ok(0),
-            Some(POut::Err) => Err(io::Error::new(io::ErrorKind::ConnectionReset, "verif: injected write error")),
-            Some(POut::StuckErr) => {
-                self.stuck = Some(POut::StuckErr);
-                Err(io::Error::new(io::ErrorKind::ConnectionReset, "verif: injected write error (persistent)"))
+            Some(POut::Err(k)) => Err(io::Error::new(k, "verif: injected write error")),
+            Some(POut::StuckErr(k)) => {
+                self.stuck = Some(POut::StuckErr(k));
+                Err(io::Error::new(k, "verif: injected write error (persistent)"))
             }
             Some(POut::StuckZero) => {
                 self.stuck = Some(POut::StuckZero);
@@ -184,11 +197,69 @@ pub struct RecvRun {
     pub cap: usize,
 }
 
-pub fn run_blocking_receiver<T: Shape + ?Sized>(stream: &[u8], script: Vec<POut>, maxlen: usize, budget: usize) -> Obs<RecvRun> {
+/// The same scripted source seen through the async traits (it never answers Pending: the async
+/// receiver / sender then run exactly the blocking algorithm's steps).
+pub struct NeverPending<P>(pub P);
+impl<P: io::Read + Unpin> futures::io::AsyncRead for NeverPending<P> {
+    fn poll_read(mut self: std::pin::Pin<&mut Self>, _cx: &mut std::task::Context<'_>, buf: &mut [u8]) -> std::task::Poll<io::Result<usize>> {
+        std::task::Poll::Ready(self.0.read(buf))
+    }
+}
+impl<P: io::Write + Unpin> futures::io::AsyncWrite for NeverPending<P> {
+    fn poll_write(mut self: std::pin::Pin<&mut Self>, _cx: &mut std::task::Context<'_>, buf: &[u8]) -> std::task::Poll<io::Result<usize>> {
+        std::task::Poll::Ready(self.0.write(buf))
+    }
+    fn poll_flush(mut self: std::pin::Pin<&mut Self>, _cx: &mut std::task::Context<'_>) -> std::task::Poll<io::Result<()>> {
+        std::task::Poll::Ready(self.0.flush())
+    }
+    fn poll_close(self: std::pin::Pin<&mut Self>, _cx: &mut std::task::Context<'_>) -> std::task::Poll<io::Result<()>> {
+        std::task::Poll::Ready(Ok(()))
+    }
+}
+
+/// The async receiver over the same script; returns only the sequence of returns (no trace).
+pub fn run_async_receiver<T: Shape + ?Sized>(stream: &[u8], script: Vec<POut>, maxlen: usize, cap: usize, budget: usize) -> Obs<Vec<Value>> {
+    guarded(|| {
+        let _ = verif::take();
+        let src = NeverPending(ScriptSource::new(stream.to_vec(), script, budget));
+        let default_cap = 2 * maxlen.max(T::MIN_SIZE);
+        let mut rx = if cap == default_cap { flatty_io::AsyncReceiver::<T, _>::io(src, maxlen) } else { flatty_io::AsyncReceiver::<T, _>::new(flatty_io::IoBuffer::new(src, cap, T::ALIGN)) };
+        let mut rets = vec![];
+        futures::executor::block_on(async {
+            loop {
+                let (ret, stop) = match rx.recv().await {
+                    Ok(g) => {
+                        let mut c = Ctx::unbounded();
+                        let val = g.read(&mut c);
+                        (json!({"e": "msg", "v": val, "size": g.size(), "lencap": c.lencap}), false)
+                    }
+                    Err(RecvError::Closed) => (json!({"e": "closed"}), true),
+                    Err(RecvError::Parse(e)) => (json!({"e": "parse", "err": err_json(&e)}), true),
+                    Err(RecvError::Read(e)) => {
+                        if is_marker(&e, EXHAUSTED) { (json!({"e": "exhausted"}), true) }
+                        else if e.kind() == io::ErrorKind::OutOfMemory { (json!({"e": "oom"}), true) }
+                        else { (json!({"e": "rerr"}), false) }
+                    }
+                };
+                if ret["e"] != "exhausted" {
+                    rets.push(ret);
+                }
+                if stop {
+                    break;
+                }
+            }
+        });
+        let _ = verif::take();
+        rets
+    })
+}
+
+pub fn run_blocking_receiver<T: Shape + ?Sized>(stream: &[u8], script: Vec<POut>, maxlen: usize, cap: usize, budget: usize) -> Obs<RecvRun> {
     guarded(|| {
         let _ = verif::take();
         let src = ScriptSource::new(stream.to_vec(), script, budget);
-        let mut rx = Receiver::<T, _>::io(src, maxlen);
+        let default_cap = 2 * maxlen.max(T::MIN_SIZE);
+        let mut rx = if cap == default_cap { Receiver::<T, _>::io(src, maxlen) } else { Receiver::<T, _>::new(flatty_io::IoBuffer::new(src, cap, T::ALIGN)) };
         let cap = rx.verif_buffer().verif_state().2;
         let mut rets = vec![];
         let mut trace: Vec<Value> = vec![];
@@ -249,7 +320,7 @@ fn script_from_recv_path(path: &[Value]) -> (Vec<POut>, Vec<Value>) {
         match ev["e"].as_str().unwrap_or("") {
             "read" => script.push(POut::Data(ev["n"].as_u64().unwrap_or(0) as usize)),
             "rerr" => {
-                script.push(POut::Err);
+                script.push(POut::Err(err_kind(ev["kind"].as_str().unwrap_or(""))));
                 rets.push(json!({"e": "rerr"}));
             }
             "closed" => {
@@ -286,12 +357,39 @@ impl<'a> Visitor for IoRecvVisitor<'a> {
             if !valid { "C10" } else if faults > 0 { "C09" } else { "C07" }
         };
         let p = owner(valid, nfaults);
+        let budget = 4 * (cap + 2) * (exp_rets.len() + 2);
+        if has("C08") && valid && nfaults == 0 {
+            // C08: the async receiver over a pipe that is always ready, under every chunking and buffer capacity
+            out.count("judged.C08");
+            out.count("ioasync.recv-paths");
+            match run_async_receiver::<T>(&stream, script.clone(), maxlen, cap, budget) {
+                Obs::Panic(m) => out.viol("C08", "panic", id, "async-recv", format!("async recv / guard drop panicked: {}", m)),
+                Obs::Ret(arets) => {
+                    let msgs = arr(&header["msgs"]);
+                    let mut mi = 0usize;
+                    let mut bad = arets.len() < exp_rets.len();
+                    for (i, got) in arets.iter().enumerate() {
+                        match exp_rets.get(i) {
+                            Some(e) => bad = bad || got["e"] != e["e"] || (got["e"] == "msg" && got["size"] != e["size"]),
+                            None => bad = bad || got["e"] != "msg",
+                        }
+                        if got["e"] == "msg" {
+                            bad = bad || msgs.get(mi).map(|m| content_diff(m, &got["v"], "").is_some()).unwrap_or(true);
+                            mi += 1;
+                        }
+                    }
+                    if bad {
+                        out.viol("C08", "returns", id, "async-recv", format!("async receiver returned {:?}, expected {:?} (then only further sent messages)", kinds(&arets), kinds(&exp_rets)));
+                    }
+                }
+            }
+        }
         if !has(p) {
             return;
         }
         out.count(&format!("judged.{}", p));
-        let budget = 4 * (cap + 2) * (exp_rets.len() + 2);
-        let run = match run_blocking_receiver::<T>(&stream, script, maxlen, budget) {
+        let script2 = script.clone();
+        let run = match run_blocking_receiver::<T>(&stream, script, maxlen, cap, budget) {
             Obs::Panic(m) => {
                 if m.contains(BUDGET) {
                     out.viol(p, "no-return", id, "recv", "recv did not return within the pipe-call budget".into());
@@ -348,6 +446,23 @@ impl<'a> Visitor for IoRecvVisitor<'a> {
                     out.viol(p, "message", id, "len>cap", format!("message {}: {}", mi, got["lencap"]));
                 }
                 mi += 1;
+            }
+        }
+        // the async receiver runs the same algorithm: over the same script (a pipe that never answers
+        // Pending) it must return exactly what the blocking one returned
+        match run_async_receiver::<T>(&stream, script2, maxlen, cap, budget) {
+            Obs::Panic(m) => {
+                if m.contains(BUDGET) {
+                    out.viol(p, "no-return", id, "async-recv", "async recv did not return within the pipe-call budget".into());
+                } else {
+                    out.viol(p, "panic", id, "async-recv", format!("async recv / guard drop panicked: {}", m));
+                }
+            }
+            Obs::Ret(arets) => {
+                let strip = |v: &Vec<Value>| -> Vec<Value> { v.iter().map(|r| json!({"e": r["e"], "size": r["size"], "v": r["v"]})).collect() };
+                if strip(&arets) != strip(&run.rets) {
+                    out.viol(p, "returns", id, "async-differs", format!("async receiver returned {:?}, blocking receiver {:?} on the same script", kinds(&arets), kinds(&run.rets)));
+                }
             }
         }
         // keep the recorded trace for TLC trace validation
@@ -409,41 +524,78 @@ pub struct SendRun {
 }
 
 pub fn run_blocking_sender<T: Shape + ?Sized>(msgs: &[Value], script: Vec<POut>, maxlen: usize, budget: usize) -> Obs<SendRun> {
+    run_sender::<T>(msgs, script, maxlen, budget, false)
+}
+
+/// `asyncv`: use the async Sender over the same scripted sink (it never answers Pending).
+pub fn run_sender<T: Shape + ?Sized>(msgs: &[Value], script: Vec<POut>, maxlen: usize, budget: usize, asyncv: bool) -> Obs<SendRun> {
     let pipe = ScriptSink::new(script, budget);
     let st = pipe.st.clone();
-    let shared = std::rc::Rc::new(std::cell::RefCell::new(SendRun { rets: vec![], real_msgs: vec![], sink: vec![], over_budget: false, calls_per_send: vec![], sink_after: vec![], poisoned: false }));
+    let empty = || SendRun { rets: vec![], real_msgs: vec![], sink: vec![], over_budget: false, calls_per_send: vec![], sink_after: vec![], poisoned: false };
+    let shared = std::rc::Rc::new(std::cell::RefCell::new(empty()));
     let sh = shared.clone();
     let st2 = st.clone();
     let r = guarded(move || {
         let _ = verif::take();
-        let mut tx = Sender::<T, _>::io(pipe, maxlen);
-        for (i, m) in msgs.iter().enumerate() {
-            if tx.verif_buffer().verif_state().3 {
-                // a poisoned sender refuses (the documented assert); nothing may reach the sink any more
-                sh.borrow_mut().poisoned = true;
-                break;
+        if !asyncv {
+            let mut tx = Sender::<T, _>::io(pipe, maxlen);
+            for (i, m) in msgs.iter().enumerate() {
+                if tx.verif_buffer().verif_state().3 {
+                    // a poisoned sender refuses (the documented assert); nothing may reach the sink any more
+                    sh.borrow_mut().poisoned = true;
+                    break;
+                }
+                let c0 = st2.borrow().calls;
+                let g = tx.alloc().expect("alloc");
+                let g = match g.new_in_place(T::emp(m, i as u32)) {
+                    Ok(g) => g,
+                    Err(e) => panic!("message {} does not fit the sender's buffer: {:?}", i, e),
+                };
+                let size = g.size();
+                sh.borrow_mut().real_msgs.push(g.as_bytes()[..size.min(g.as_bytes().len())].to_vec());
+                let r = g.send();
+                let c1 = st2.borrow().calls;
+                let mut run = sh.borrow_mut();
+                run.calls_per_send.push(c1 - c0);
+                run.sink_after.push(st2.borrow().sink.len());
+                run.rets.push(if r.is_ok() { "ok".into() } else { "err".into() });
+                run.poisoned = tx.verif_buffer().verif_state().3;
             }
-            let c0 = st2.borrow().calls;
-            let g = tx.alloc().expect("alloc");
-            let g = match g.new_in_place(T::emp(m, i as u32)) {
-                Ok(g) => g,
-                Err(e) => panic!("message {} does not fit the sender's buffer: {:?}", i, e),
-            };
-            let size = g.size();
-            sh.borrow_mut().real_msgs.push(g.as_bytes()[..size.min(g.as_bytes().len())].to_vec());
-            let r = g.send();
-            let c1 = st2.borrow().calls;
-            let mut run = sh.borrow_mut();
-            run.calls_per_send.push(c1 - c0);
-            run.sink_after.push(st2.borrow().sink.len());
-            run.rets.push(if r.is_ok() { "ok".into() } else { "err".into() });
-            run.poisoned = tx.verif_buffer().verif_state().3;
+            let p = tx.verif_buffer().verif_state().3;
+            let was = sh.borrow().poisoned;
+            sh.borrow_mut().poisoned = was || p;
+        } else {
+            let mut tx = flatty_io::AsyncSender::<T, _>::io(NeverPending(pipe), maxlen);
+            futures::executor::block_on(async {
+                for (i, m) in msgs.iter().enumerate() {
+                    if tx.verif_buffer().verif_state().3 {
+                        sh.borrow_mut().poisoned = true;
+                        break;
+                    }
+                    let c0 = st2.borrow().calls;
+                    let g = tx.alloc().await.expect("alloc");
+                    let g = match g.new_in_place(T::emp(m, i as u32)) {
+                        Ok(g) => g,
+                        Err(e) => panic!("message {} does not fit the sender's buffer: {:?}", i, e),
+                    };
+                    let size = g.size();
+                    sh.borrow_mut().real_msgs.push(g.as_bytes()[..size.min(g.as_bytes().len())].to_vec());
+                    let r = g.send().await;
+                    let c1 = st2.borrow().calls;
+                    let mut run = sh.borrow_mut();
+                    run.calls_per_send.push(c1 - c0);
+                    run.sink_after.push(st2.borrow().sink.len());
+                    run.rets.push(if r.is_ok() { "ok".into() } else { "err".into() });
+                    run.poisoned = tx.verif_buffer().verif_state().3;
+                }
+            });
+            let p = tx.verif_buffer().verif_state().3;
+            let was = sh.borrow().poisoned;
+            sh.borrow_mut().poisoned = was || p;
         }
-        let p = tx.verif_buffer().verif_state().3;
-        sh.borrow_mut().poisoned = sh.borrow().poisoned || p;
     });
     let finish = |shared: std::rc::Rc<std::cell::RefCell<SendRun>>| {
-        let mut run = std::mem::replace(&mut *shared.borrow_mut(), SendRun { rets: vec![], real_msgs: vec![], sink: vec![], over_budget: false, calls_per_send: vec![], sink_after: vec![], poisoned: false });
+        let mut run = std::mem::replace(&mut *shared.borrow_mut(), empty());
         run.sink = st.borrow().sink.clone();
         // a send that was cut short by the end of the script has no result
         while run.real_msgs.len() > run.rets.len() {
@@ -475,7 +627,8 @@ fn script_from_send_path(path: &[Value]) -> (Vec<POut>, bool, bool) {
                 if n == 0 && ev["pos"].as_u64() == Some(0) {
                     transient0 = true;
                 }
-                if n == 1 { script.push(POut::StuckErr) } else if n == 0 { script.push(POut::Err) }
+                let k = err_kind(ev["kind"].as_str().unwrap_or(""));
+                if n == 1 { script.push(POut::StuckErr(k)) } else if n == 0 { script.push(POut::Err(k)) }
             }
             _ => {}
         }
@@ -539,19 +692,21 @@ impl<'a> Visitor for IoSendVisitor<'a> {
         out.count(&format!("judged.{}", p));
         let total: usize = imgs.iter().map(|m| arr(m).len()).sum();
         let budget = 4 * (total + msgs.len() + 4);
-        let run = match run_blocking_sender::<T>(msgs, script, maxlen, budget) {
+        for asyncv in [false, true] {
+        let variant = if asyncv { "async-send" } else { "send" };
+        let run = match run_sender::<T>(msgs, script.clone(), maxlen, budget, asyncv) {
             Obs::Panic(m) => {
                 if m.contains(BUDGET) {
-                    out.viol(p, "no-return", id, "send", format!("send did not return within {} pipe calls under {:?}", budget, kinds_path(path)));
+                    out.viol(p, "no-return", id, variant, format!("send did not return within {} pipe calls under {:?}", budget, kinds_path(path)));
                 } else {
-                    out.viol(p, "panic", id, "send", format!("alloc / new_in_place / send panicked: {}", m));
+                    out.viol(p, "panic", id, variant, format!("alloc / new_in_place / send panicked: {}", m));
                 }
-                return;
+                continue;
             }
             Obs::Ret(r) => r,
         };
         if let Err(e) = sink_framed(&run) {
-            out.viol(p, "sink", id, "framing", e);
+            out.viol(p, "sink", id, &format!("{}:framing", variant), format!("{} under {:?}", e, kinds_path(path)));
         }
         // determined bytes of every message that reached the sink completely
         for (i, m) in run.real_msgs.iter().enumerate() {
@@ -575,17 +730,18 @@ impl<'a> Visitor for IoSendVisitor<'a> {
         if !transient0 {
             let n = got.len().min(exp_rets.len());
             if got[..n] != exp_rets[..n] || (got.len() < exp_rets.len() && !run.poisoned && run.rets.last().map(|r| r != "exhausted").unwrap_or(true)) {
-                out.viol(p, "returns", id, "differ", format!("send results {:?} expected {:?} under {:?}", got, exp_rets, kinds_path(path)));
+                out.viol(p, "returns", id, &format!("{}:differ", variant), format!("send results {:?} expected {:?} under {:?}", got, exp_rets, kinds_path(path)));
             }
         }
         if case["final"] == "poisoned" && !transient0 && !run.poisoned && got == exp_rets {
-            out.viol(p, "poison", id, "not-poisoned", "a partial message is in the sink but the sender is not poisoned".into());
+            out.viol(p, "poison", id, &format!("{}:not-poisoned", variant), format!("a partial message is in the sink but the sender is not poisoned, under {:?}", kinds_path(path)));
+        }
         }
     }
 }
 
 fn kinds_path(path: &[Value]) -> Vec<String> {
-    path.iter().map(|e| format!("{}{}@{}", e["e"].as_str().unwrap_or(""), e["n"], e["pos"])).collect()
+    path.iter().map(|e| format!("{}{}{}@{}", e["e"].as_str().unwrap_or(""), e["n"], e["kind"].as_str().map(|k| if k.is_empty() { String::new() } else { format!("({})", k) }).unwrap_or_default(), e["pos"])).collect()
 }
 
 // ---------------------------------------------------------------------------------------------
